@@ -457,9 +457,31 @@ impl Driver {
     pub fn flush(&mut self) -> bool {
         #[cfg(compio_verif)]
         compio_log::verif::point("drv.flush", 0, 0);
-        let succeed = self.submit_auto(Some(Duration::ZERO), false).is_ok();
+        // An external event loop waits on the ring fd right after `flush`, possibly before
+        // the first `poll`: the notifier must already be armed, or a cross-thread wake
+        // (eventfd write) would never make the ring readable.
+        let armed = self.arm_notifier().is_ok();
+        let succeed = armed && self.submit_auto(Some(Duration::ZERO), false).is_ok();
         // If submission failed, return true to let the driver wake up immediately.
         !succeed | self.notifier.reset()
+    }
+
+    /// Push the multishot `PollAdd` of the notifier if it is not armed.
+    fn arm_notifier(&mut self) -> io::Result<()> {
+        if self.flags.contains(DriverFlags::NEED_PUSH_NOTIFIER) {
+            #[cfg(compio_verif)]
+            compio_log::verif::point("iour.arm_notifier", 0, 0);
+            #[allow(clippy::useless_conversion)]
+            self.push_raw(
+                PollAdd::new(Fd(self.notifier.as_raw_fd()), libc::POLLIN as _)
+                    .multi(true)
+                    .build()
+                    .user_data(Self::NOTIFY)
+                    .into(),
+            )?;
+            self.flags.remove(DriverFlags::NEED_PUSH_NOTIFIER);
+        }
+        Ok(())
     }
 
     pub fn poll(&mut self, timeout: Option<Duration>) -> io::Result<()> {
@@ -475,19 +497,7 @@ impl Driver {
 
         let need_wait = !self.notifier.reset();
 
-        if self.flags.contains(DriverFlags::NEED_PUSH_NOTIFIER) {
-            #[cfg(compio_verif)]
-            compio_log::verif::point("iour.arm_notifier", 0, 0);
-            #[allow(clippy::useless_conversion)]
-            self.push_raw(
-                PollAdd::new(Fd(self.notifier.as_raw_fd()), libc::POLLIN as _)
-                    .multi(true)
-                    .build()
-                    .user_data(Self::NOTIFY)
-                    .into(),
-            )?;
-            self.flags.remove(DriverFlags::NEED_PUSH_NOTIFIER);
-        }
+        self.arm_notifier()?;
 
         self.submit_auto(timeout, need_wait)?;
 
